@@ -368,12 +368,13 @@ func main() {
 	firstSet := []rx.Round{{Resp: "done-final", Beh: "next"}, {Resp: "rows", Beh: "next"}, {Resp: "done-count", Beh: "until-err"}}
 	secondSet := []rx.Round{{Resp: "done-count", Beh: "next"}, {Resp: "envchange-only", Beh: "next"}, {Resp: "rows", Beh: "until-err"}, {Resp: "no-done-at-all", Beh: "next"},
 		{Resp: "rows", Pack: 6, Beh: "next"}, {Resp: "returnstatus-doneproc", Pack: 6, Beh: "next"}}
+	nFirst, nSecond := len(firstSet), len(secondSet)
 	if h.Thorough {
 		firstSet = append(firstSet, rx.Round{Resp: "eed-mixed", Beh: "next"}, rx.Round{Resp: "done-final", Pack: 2, Beh: "until-errw"}, rx.Round{Resp: "envchange-only", Beh: "nil-callback"})
 		secondSet = append(secondSet, rx.Round{Resp: "done-final", Beh: "next"}, rx.Round{Resp: "eed-last", Beh: "until-true"}, rx.Round{Resp: "two-result-sets", Pack: 2, Beh: "until-eof", J: 2})
 	}
-	for _, a := range firstSet {
-		for _, b := range secondSet {
+	for ai, a := range firstSet {
+		for bi, b := range secondSet {
 			idx++
 			if !h.Mine(idx) {
 				continue
@@ -381,7 +382,11 @@ func main() {
 			if h.Expired("schedule exploration cut short") {
 				break
 			}
-			exploreSchedules(Case{Rounds: []rx.Round{a, b}}, sb)
+			bound := sb
+			if ai >= nFirst || bi >= nSecond {
+				bound = 2 // the additional thorough histories at the quick bound; the base set one deviation deeper
+			}
+			exploreSchedules(Case{Rounds: []rx.Round{a, b}}, bound)
 		}
 	}
 	h.R.Extra["schedule_deviation_bound"] = sb
